@@ -3,4 +3,4 @@ NEXT Next
 INVARIANT Emit
 INVARIANT Laws
 CHECK_DEADLOCK FALSE
-CONSTANTS MaxDia = 1  AlphaStride = 1
+CONSTANTS MaxDia = 1  DiaStride = 1  AlphaStride = 1
